@@ -45,6 +45,12 @@ def judge_input(ws, data, part, fault, acc, order, readonly=False, count=True):
     """One malformed (or not) input through the real decoder."""
     cls = ws.cls
     acc.add("evaluations")
+    seen_inputs = acc.__dict__.setdefault("_seen_inputs", {}).setdefault(ws.path, set())
+    h = hash(data)
+    if h not in seen_inputs:
+        seen_inputs.add(h)
+        if data:
+            acc.add("distinct_nontrivial")  # distinct input bytes for this class; the empty input is the trivial case
     src = streams.ReadOnlySource(data) if readonly else (streams.CountingBytesIO(data) if count else io.BytesIO(data))
     res, val = decode_with(cls, src, len(data))
     if not readonly and count and src.returned > len(data):
@@ -146,6 +152,7 @@ def _task(arg):
             acc.sample({"class": ws.path, "valid_encoding": enc.hex()[:80],
                         "critical_offsets": crit[:20], "example_fault": ["overwrite", crit[0] if crit else 0, 255]})
     acc.add("classes")
+    acc.__dict__.pop("_seen_inputs", None)
     if ex.capped:
         acc.caps.append(f"{ws.path}: instance cap {cfg['cap']} hit, completed k={ex.k}")
     return acc.result()
@@ -165,7 +172,6 @@ def run_c10(tier):
     for res in pmap(_task, [(i, cfg) for i in order], chunksize=2):
         run.merge(res)
     c = run.cov
-    c["distinct_nontrivial"] = c["evaluations"] - c.get("classes", 0)
     c["rule"] = (
         f"for every one of the {len(classes)} classes: (a) every byte string of length <= "
         f"{1 if tier == 'quick' else 2} over all 256 byte values and of length <= {3 if tier == 'quick' else 4} "
@@ -177,7 +183,7 @@ def run_c10(tier):
         + ("; (c) every pair of overwrites on the layout-critical offsets of the base instance" if cfg["pairs"] else "")
         + "; (d) every length / count / tag / size / marker prefix of every such instance (quick: of one instance per distinct layout shape) replaced as a whole by hostile encodings "
         "(maximal and over-long varints, values around 2^31 and 2^35, negative and huge fixed-width lengths, all 256 marker bytes)"
-        + f". Each input is a distinct fault case. Verdict per input: finishes within {BUDGET_A}+{BUDGET_B}*len "
+        + f". distinct_nontrivial counts distinct non-empty input byte strings per class (different faults can produce the same bytes). Verdict per input: finishes within {BUDGET_A}+{BUDGET_B}*len "
         "monitored steps; returns an entity (which must re-encode and re-decode stably) or raises SerialError / "
         "ValueError / OverflowError; position never beyond the input."
     )
